@@ -11,6 +11,10 @@ import io
 import types
 from itertools import zip_longest
 from unittest.mock import patch
+try:
+    import threading
+except BaseException:
+    threading = None
 
 from pedal.core.feedback_category import FeedbackCategory
 from pedal.core.report import MAIN_REPORT
@@ -25,6 +29,31 @@ from pedal.sandbox.exceptions import SandboxHasNoFunction, SandboxHasNoVariable
 from pedal.sandbox.timeout import timeout
 from pedal.sandbox.result import SandboxResult
 from pedal.sandbox.tracer import TRACER_STYLES
+
+
+class _NoLock:
+    """ Stand-in for a lock when an execution is not run in its own thread. """
+    def __enter__(self):
+        return self
+
+    def __exit__(self, *exc_info):
+        return False
+
+
+class _TimedExecution:
+    """
+    Shared between the thread that runs student code under a time limit and
+    the thread that waits for it. Exactly one of them brings the execution to
+    an end: either the runner finishes it (``finished``) or the waiter gives up
+    on it (``abandoned``); both decide while holding the sandbox's
+    ``_execution_lock``. An abandoned runner must not touch the sandbox again.
+    """
+    def __init__(self, patch_depth, stdout_depth):
+        self.patch_depth = patch_depth
+        self.stdout_depth = stdout_depth
+        self.context = None
+        self.finished = False
+        self.abandoned = False
 
 
 class Sandbox:
@@ -79,6 +108,8 @@ class Sandbox:
         # Patching
         self._current_patches = []
         self._current_stdout = []
+        # Decides who ends an execution that is run under a time limit
+        self._execution_lock = threading.Lock() if threading is not None else _NoLock()
         # Temporary Variables
         self._temporary_variables = set()
         self._backup_variables = {}
@@ -156,30 +187,56 @@ class Sandbox:
         Returns:
             :py:class:`pedal.sandbox.sandbox.Sandbox`
         """
+        execution = _TimedExecution(len(self._current_patches), len(self._current_stdout))
+
+        def give_up():
+            """ The time is up: unless the code has just finished on its own,
+            take the execution away from its thread and undo what it set up. """
+            with self._execution_lock:
+                if execution.finished:
+                    return False
+                execution.abandoned = True
+                while len(self._current_patches) > execution.patch_depth:
+                    self._stop_patches()
+                while len(self._current_stdout) > execution.stdout_depth:
+                    abandoned_stdout = self._current_stdout.pop()
+                    if execution.context is not None:
+                        self.append_output(abandoned_stdout.getvalue(), execution.context)
+                return True
         try:
             return timeout(self.allowed_time, self._execute,
-                           code, filename, kind, False, **meta)
+                           code, filename, kind, False, execution=execution,
+                           _on_timeout=give_up, **meta)
         except TimeoutError as timeout_exception:
-            self._stop_patches()
             self._capture_exception(timeout_exception, sys.exc_info(),
                                     code, filename)
+            if execution.context is not None:
+                self._next_context_id += 1
             return self
 
-    def _execute(self, code, filename, kind, threaded, **meta):
+    def _execute(self, code, filename, kind, threaded, execution=None, **meta):
         # Handle any threading if necessary
         if threaded:
             return self._execute_with_timeout(code, filename, kind, **meta)
+        # When run under a time limit, setting up and ending the execution
+        # are decided under a lock shared with the thread that may give up on us
+        lock = self._execution_lock if execution is not None else _NoLock()
 
-        self.clear_exception()
+        with lock:
+            if execution is not None and execution.abandoned:
+                return self
+            self.clear_exception()
 
-        context = SandboxContext(self._next_context_id, code, filename, kind,
-                                 self.target, [], "",
-                                 self.exception, self.report.submission, **meta)
-        self._context.append(context)
+            context = SandboxContext(self._next_context_id, code, filename, kind,
+                                     self.target, [], "",
+                                     self.exception, self.report.submission, **meta)
+            self._context.append(context)
+            if execution is not None:
+                execution.context = context
 
-        # Patch in dangerous built-ins
-        # Override builtins and mock stuff out
-        self._start_mocking(context)
+            # Patch in dangerous built-ins
+            # Override builtins and mock stuff out
+            self._start_mocking(context)
         self.data['__name__'] = "__main__"
         try:
             # TODO: Support CaitNode and Ast (needs skulpt to support compile better)
@@ -187,22 +244,41 @@ class Sandbox:
             with self.trace.as_filename(filename, code):
                 exec(compiled_code, self.data)
         except Exception as user_exception:
-            self._stop_mocking(context)
-            self._capture_exception(user_exception, sys.exc_info(),
-                                    code, filename)
+            with lock:
+                if execution is not None and execution.abandoned:
+                    return self
+                self._stop_mocking(context)
+                self._capture_exception(user_exception, sys.exc_info(),
+                                        code, filename)
+                if execution is not None:
+                    execution.finished = True
         # NOTE: https://docs.python.org/3/library/exceptions.html#SystemExit
         # This exception does not inherit from Exception and has to be caught separately
         except SystemExit as system_exit:
-            self._stop_mocking(context)
-            self._capture_exception(system_exit, sys.exc_info(),
-                                    code, filename)
+            with lock:
+                if execution is not None and execution.abandoned:
+                    return self
+                self._stop_mocking(context)
+                self._capture_exception(system_exit, sys.exc_info(),
+                                        code, filename)
+                if execution is not None:
+                    execution.finished = True
         except BaseException:
             # KeyboardInterrupt, GeneratorExit, ...: these are not reported as
             # student failures, but the patches must not outlive the execution
-            self._stop_mocking(context)
+            with lock:
+                if execution is None or not execution.abandoned:
+                    self._stop_mocking(context)
+                    if execution is not None:
+                        execution.finished = True
             raise
         else:
-            self._stop_mocking(context)
+            with lock:
+                if execution is not None and execution.abandoned:
+                    return self
+                self._stop_mocking(context)
+                if execution is not None:
+                    execution.finished = True
 
         self._next_context_id += 1
         return self
